@@ -19,7 +19,8 @@ class C08(Check):
             '1-6 x every breakpoint option (bkspace, nbkpts, everyn, placed, explicit bkpt incl. repeated interior knots and '
             'vectors not covering the data) x coefficient vectors (random, unit vectors, polynomial-like) x evaluation points '
             '(the data, the knots, midpoints, random interior, points 1e-9..1e-1 intervals outside each end) in shuffled '
-            'order.  Non-trivial: order >= 2, >= 3 intervals and >= 1 evaluation point per interval; distinct by input hash.')
+            'order; class units: the same in other units of the abscissa (factors 1e-30..1e+30: metres, seconds, Hz) and of the '
+            'coefficients.  Non-trivial: order >= 2, >= 3 intervals and >= 1 evaluation point per interval; distinct by input hash.')
     ASSUMPTIONS = ['outside the breakpoint range only mask, order-independence and finiteness are asserted (the property defines no value there)',
                    'repeated interior knots have multiplicity <= order-1 (spline stays continuous); for order 1 a point on an '
                    'interior knot may take either neighbouring coefficient',
@@ -28,7 +29,10 @@ class C08(Check):
                    'single-precision resolution of their values (Julian dates minutes apart) are used with the other options only',
                    'a bkspace that divides the data range gives exactly that spacing: asserted for float64 abscissae (for float32 '
                    'data the quotient is formed in single precision)']
-    REQUIRED_COUNTERS = ('long_everyn_points_times_breakpoints_over_2**31', 'abscissae_with_offset_over_1e6_and_knot_spacing_below_1e-7_of_it', 'bkspace_divides_the_range_exactly', 'nan_evaluations_with_outside_points_above_only', 'caller_breakpoint_array_reused_afterwards_order1', 'value_with_precomputed_action', 'mask_changed_on_evaluated_object', 'knots_through_iterfit_unsorted_data', 'canary_sequences', 'single_point_evaluations', 'presorted_evaluations', 'opt_bkspace', 'opt_nbkpts', 'opt_everyn', 'opt_placed', 'opt_bkpt', 'not_cover_adjusted',
+    REQUIRED_COUNTERS = ('units_whole_knot_vector_shorter_than_1e-9', 'units_every_knot_spacing_over_1e9',
+                         'units_tiny_abscissae_opt_bkspace', 'units_tiny_abscissae_opt_nbkpts', 'units_tiny_abscissae_opt_everyn',
+                         'units_tiny_abscissae_opt_placed', 'units_tiny_abscissae_opt_bkpt', 'units_coefficients_below_1e-9', 'units_coefficients_over_1e9',
+                         'long_everyn_points_times_breakpoints_over_2**31', 'abscissae_with_offset_over_1e6_and_knot_spacing_below_1e-7_of_it', 'bkspace_divides_the_range_exactly', 'nan_evaluations_with_outside_points_above_only', 'caller_breakpoint_array_reused_afterwards_order1', 'value_with_precomputed_action', 'mask_changed_on_evaluated_object', 'knots_through_iterfit_unsorted_data', 'canary_sequences', 'single_point_evaluations', 'presorted_evaluations', 'opt_bkspace', 'opt_nbkpts', 'opt_everyn', 'opt_placed', 'opt_bkpt', 'not_cover_adjusted',
                          'points_compared_inside', 'points_outside_checked', 'unsorted_inputs', 'float32_inputs',
                          'scipy_agreements',
                          'online_value_points_compared', 'online_constructions_judged', 'online_value_calls_masked_breakpoints',
@@ -200,6 +204,7 @@ class C08(Check):
     def budget(self, tier):
         k = 1 if tier == 'quick' else 80
         return {'random': 1400 * k, 'explicit_bkpt': 400 * k, 'everyn': 300 * k, 'tiny': 200 * k, 'everyn_degenerate': 40 * k,
+                'units': 500 * k,
                 'long_everyn': 4 if tier == 'quick' else 40,
                 'xw_iterfit': 160 if tier == 'quick' else 6000, 'xw_combine1fiber': 80 if tier == 'quick' else 3000,
                 'xw_suite': 1 if tier == 'quick' else 2}
@@ -223,6 +228,15 @@ class C08(Check):
         nx = rng.randint(5, 400) if cls != 'tiny' else rng.randint(5, 12)
         k = rng.randint(1, 6)
         lo, hi = rng.choice([(-5.0, 20.0), (0.0, 1.0), (3500.0, 9200.0), (-1e-3, 1e-3), (3.55, 3.97)])
+        units = None
+        if cls == 'units':
+            # the same physical grid in other units: the property speaks of "all data abscissae", not of abscissae of order one.
+            # Wavelengths in metres (1e-7), times in seconds that are nanoseconds apart, frequencies in Hz (1e14), cgs / SI constants
+            # (1e-27, 1e+30): every quantity the construction and the recursion handle (data, bkspace, placed, bkpt, knot
+            # differences) scales with the unit, nothing in the property does.  Independently the coefficients get a unit of their own.
+            u = rng.choice([-30, -24, -18, -15, -12, -10, -9, -9, -8, -8, -7, -7, -6, -5, -4, 4, 5, 6, 7, 8, 9, 10, 12, 15, 18, 24, 30])
+            units = {'xfac': rng.choice([1.0, 1.0, rng.uniform(1.0, 10.0)]) * 10.0 ** u,
+                     'cexp': rng.choice([0, 0, rng.randint(-30, -9), rng.randint(9, 30), -u, u])}
         if cls in ('random', 'explicit_bkpt') and rng.random() < 0.12:
             # abscissae with a large additive offset and a narrow span (Julian dates minutes apart, Unix seconds, a pixel window of
             # a mosaic): the breakpoint spacing is far below single-precision resolution of the values themselves
@@ -308,9 +322,29 @@ class C08(Check):
                 a, b = a + 0.05 * rngx, b - 0.05 * rngx
             inner = inner[(inner > a) & (inner < b)]
             val = [a] + inner.tolist() + [b]
-        return {'kind': cls, 'x': x.astype('f8').tolist(), 'xdtype': dt, 'sorted': srt, 'nord': k, 'opt': opt, 'optval': val,
+        case = {'kind': cls, 'x': x.astype('f8').tolist(), 'xdtype': dt, 'sorted': srt, 'nord': k, 'opt': opt, 'optval': val,
                 'coeff_mode': rng.choice(['random', 'random', 'unit', 'poly']), 'seed': rng.getrandbits(32),
                 'bkpt_dtype': 'f8' if self._offset_case else rng.choice(['f8', 'f8', 'f4'])}
+        if units is not None:
+            f, ce = units['xfac'], units['cexp']
+            if dt == 'f4' or opt == 'everyn' or (opt == 'bkpt' and case['bkpt_dtype'] == 'f4'):
+                # single-precision data / breakpoints: stay well inside the single-precision exponent range (values up to 1e4 and
+                # spacings down to 1e-6 in the unscaled grid; coefficients up to 1e3)
+                f = min(max(f, 1e-24), 1e24)
+                ce = min(max(ce, -24), 24)
+            xs = (x.astype('f8') * f).astype(dt)
+            if float(xs.max()) <= float(xs.min()):
+                xs[0], xs[-1] = lo * f, hi * f
+                if srt:
+                    xs = np.sort(xs)
+            case['x'] = xs.astype('f8').tolist()
+            if opt == 'bkspace':
+                case['optval'] = float(val) * f
+            elif opt in ('placed', 'bkpt'):
+                case['optval'] = (np.asarray(val, dtype='f8') * f).tolist()
+            case['xfac'] = f
+            case['cexp'] = ce
+        return case
 
     # ------------------------------------------------------------------ run
     def canary(self):
@@ -389,7 +423,7 @@ class C08(Check):
         out.count('not_cover_adjusted', adjusted)
         out.count('unsorted_inputs', not case['sorted'])
         out.count('float32_inputs', case['xdtype'] == 'f4')
-        out.count('abscissae_with_offset_over_1e6_and_knot_spacing_below_1e-7_of_it', abs(float(x.min())) > 1e6)
+        out.count('abscissae_with_offset_over_1e6_and_knot_spacing_below_1e-7_of_it', abs(float(x.min())) > 1e6 and case['kind'] != 'units')
         t = np.asarray(s.breakpoints, dtype='f8')
         xmin, xmax = float(x.min()), float(x.max())
         tol = 4 * EPS32 * max(abs(xmin), abs(xmax), 1e-300)
@@ -420,7 +454,13 @@ class C08(Check):
                        't[k-1]=%r xmin=%r t[n]=%r xmax=%r' % (t[k - 1], xmin, t[n], xmax), knots=t)
         if opt == 'bkspace' and xmax > xmin and case['xdtype'] == 'f8':     # (single-precision data: the quotient is formed in single precision)
             q = (xmax - xmin) / float(case['optval'])
-            if q >= 1 and abs(q - round(q)) <= 1e-12 * q:
+            if q >= 1 and 0 < round(q) - q <= 1e-12 * q:
+                # the double-precision quotient itself lies a rounding error BELOW the whole number (a round spacing and a round
+                # range converted to another unit: 5.000000000000001e-11 in 9.999999999999999e-10): the spacing does not divide the
+                # range, one breakpoint fewer is what "as many whole spacings as fit" means - ambiguity band, nothing asserted
+                out.count('bkspace_divides_the_range_only_to_rounding')
+                out.undecide(1)
+            elif q >= 1 and 0 <= q - round(q) <= 1e-12 * q:
                 # the spacing divides the data range: exactly round(q)+1 breakpoints, that spacing apart
                 nb = nt - 2 * (k - 1)
                 out.expect(nb == int(round(q)) + 1, 'knots', 'bkspace=%r divides the data range %r exactly %d times, yet %d breakpoints were placed '
@@ -452,6 +492,18 @@ class C08(Check):
             c = np.polyval(g.normal(size=3), np.linspace(-1, 1, n))
         else:
             c = g.normal(size=n) * 10 ** g.uniform(-3, 3)
+        if case.get('cexp'):
+            c = c * 10.0 ** case['cexp']                    # the coefficients (the fitted quantity) in a unit of their own
+        if case['kind'] == 'units':
+            dpos = np.diff(t)[np.diff(t) > 0]
+            tiny_u = bool(t[-1] - t[0] < 1e-9)              # every denominator of the recursion is below 1e-9 in absolute terms
+            out.count('units_cases')
+            out.count('units_whole_knot_vector_shorter_than_1e-9', tiny_u)
+            out.count('units_whole_knot_vector_shorter_than_1e-9_float32', tiny_u and case['xdtype'] == 'f4')
+            out.count('units_every_knot_spacing_over_1e9', bool(dpos.size and dpos.min() > 1e9))
+            out.count('units_tiny_abscissae_opt_' + opt, tiny_u)
+            out.count('units_coefficients_below_1e-9', bool(np.abs(c).max() < 1e-9))
+            out.count('units_coefficients_over_1e9', bool(np.abs(c).max() > 1e9))
         s.coeff = c.copy()
         cscale = max(float(np.abs(c).max()), 1e-300)
         # ---- evaluation points
